@@ -108,20 +108,14 @@ fn qualify(s: String) -> String {
 static WORKSPACE: std::sync::OnceLock<Vec<String>> = std::sync::OnceLock::new();
 
 fn path_of(tcx: TyCtxt<'_>, did: DefId) -> String {
-    // items of workspace crates are printed with their canonical definition path (not the
-    // shortest visible re-export), so a callee seen from another crate names the same
-    // string as the body exported by its own crate
-    let cname = tcx.crate_name(did.krate).to_string();
-    let ws = WORKSPACE.get().map(|w| w.iter().any(|c| *c == cname)).unwrap_or(false);
-    if ws && !did.is_local() {
-        qualify(with_no_visible_paths!(with_no_trimmed_paths!(tcx.def_path_str(did))))
-    } else {
-        qualify(with_crate_prefix!(with_no_trimmed_paths!(tcx.def_path_str(did))))
-    }
+    // canonical definition paths everywhere (no shortest-visible re-export): a callee seen
+    // from another crate names the same string as the body exported by its own crate, and
+    // type arguments inside impl paths are printed the same way in every crate
+    qualify(with_no_visible_paths!(with_crate_prefix!(with_no_trimmed_paths!(tcx.def_path_str(did)))))
 }
 
 fn ty_str(ty: Ty<'_>) -> String {
-    trunc(qualify(with_crate_prefix!(with_no_trimmed_paths!(ty.to_string()))), 400)
+    trunc(qualify(with_no_visible_paths!(with_crate_prefix!(with_no_trimmed_paths!(ty.to_string())))), 400)
 }
 
 fn span_loc(tcx: TyCtxt<'_>, span: Span) -> (String, usize) {
@@ -228,7 +222,7 @@ fn const_json<'tcx>(cx: &Cx<'tcx, '_>, c: &Const<'tcx>, out: &mut String) {
     match ty.kind() {
         ty::FnDef(did, args) => {
             let _ = write!(out, ",\"fn\":{}", jstr(&path_of(tcx, *did)));
-            let a = trunc(qualify(with_crate_prefix!(with_no_trimmed_paths!(format!("{:?}", args)))), 240);
+            let a = trunc(qualify(with_no_visible_paths!(with_crate_prefix!(with_no_trimmed_paths!(format!("{:?}", args))))), 240);
             let _ = write!(out, ",\"ga\":{}", jstr(&a));
         }
         _ => {
@@ -634,7 +628,7 @@ fn body_json<'tcx>(tcx: TyCtxt<'tcx>, def: LocalDefId, body: &Body<'tcx>, out: &
                 out.push_str("{\"k\":\"call\"");
                 if let Some((cdid, gargs)) = func.const_fn_def() {
                     let _ = write!(out, ",\"f\":{}", jstr(&path_of(tcx, cdid)));
-                    let a = trunc(qualify(with_crate_prefix!(with_no_trimmed_paths!(format!("{:?}", gargs)))), 240);
+                    let a = trunc(qualify(with_no_visible_paths!(with_crate_prefix!(with_no_trimmed_paths!(format!("{:?}", gargs))))), 240);
                     let _ = write!(out, ",\"ga\":{}", jstr(&a));
                     // resolved callee
                     match Instance::try_resolve(tcx, cx.tenv, cdid, gargs) {
